@@ -60,3 +60,16 @@ c = contract(G + "#force-branch", props=["C10"], region_if={"test": "not force a
 @c.ensures(only_exit="end", note="vacuity guard: the branch has a normal exit")
 def fb_reaches_end():
     return True
+
+
+# ---- PostprocessManager.run: the formatters are pointed at the generated files only -----------------------------------------------------------
+# Frame as non-interference: what is handed to the ruff invocations does not depend on the project root (so it can only be derived from `targets`,
+# the files the emitters reported); Path(...) construction, existence tests and comparisons may see the root (used to find the mypy package root).
+PM = "pyopenapi_gen.core.postprocess_manager:PostprocessManager.run"
+c = contract(PM, props=["C10"], types={"targets": "list"}, shape={"self.project_root": "str"}, abstract_unsupported=True, abstract_comprehensions=False,
+             independent_of={"sources": ["self.project_root"], "allowed": ["Path", "pathlib.Path", "exists", "is_file", "is_dir", "print", "add"]}, opaque_truediv=True)
+
+
+@c.ensures(note="vacuity guard")
+def pm_returns(result):
+    return result is None
